@@ -979,9 +979,9 @@ func shrinkC12(h *History, sig string) *History {
 
 func checkC12(tier string, seed int64) {
 	t0 := time.Now()
-	n := 60000
+	n := 250000
 	if tier != "quick" {
-		n = 6000000
+		n = 10000000
 	}
 	st := &Stats{Counters: common.Counter{}, Distinct: map[string]bool{}}
 	type outcome struct {
